@@ -6,7 +6,7 @@ set -u
 SRC=$1; K=$2; ID=$3
 WT=/tmp/seedchk/$ID
 OUT=/verif/seeded/$ID
-export CARGO_TARGET_DIR=/tmp/seedchk/target CARGO_NET_OFFLINE=true
+export CARGO_TARGET_DIR=${SEEDCHK_TARGET:-/tmp/seedchk/target} CARGO_NET_OFFLINE=true
 mkdir -p /tmp/seedchk "$OUT"
 git -C /repo worktree remove --force "$WT" 2>/dev/null
 git -C /repo worktree add -q --detach "$WT" HEAD || exit 2
